@@ -33,7 +33,7 @@ for d in sorted(glob.glob(os.path.join(here, 'seeded', '*', 'meta.json'))):
                  ', '.join(m['not_caught_by']) or '—', 'yes' if 'strengthening' in m else ''))
 nstr = sum(1 for r in rows if r[4])
 t75 = '''### 7.5 Seeded changes (independent sub-agents; `/verif/seeded/<id>/`)
-Each sub-agent received only the text of one property and a scratch worktree (rounds 2 to 4 additionally a one-line description of
+Each sub-agent received only the text of one property and a scratch worktree (rounds 2 to 5 additionally a one-line description of
 the changes already produced for that property, to be avoided; round 4 also the request to aim at what random and hostile workloads
 are unlikely to reach - one grammar version, a rare token, a boundary value, a long or order-sensitive sequence, two coinciding
 conditions - and to confirm with a fuzz loop of its own that plain random inputs do not expose the change), and had to deliver two source changes that keep all 1987 repository
@@ -67,7 +67,11 @@ C13 sub-tree listings, C15 results edited by the caller, C16 epoch and future mo
 entries and a save in progress during clean-up, C19 deepest-leaf refactoring targets and pickling of queried trees, C06 numbers from the lexical grammar and a layout-only notion of
 'out of domain', C07 near-miss texts (joined lines, stray keyword), C08 crossed-target rules / tiny alphabets / rule-name styles, C10
 control characters that are no line breaks, C12 identifiers from every corner of PEP 3131, C18 non-caching parses carrying the path
-of a cached file, structured f-strings and size-threshold tokens in every hostile mix.  One earlier
+of a cached file, structured f-strings and size-threshold tokens in every hostile mix.  Round 5 (changes G/H, twelve properties, same instructions) was missed 9 times in 22 at first and added: a sweep over the whole read-only
+API with option variants (`oracles/readonly.py`) after which the tree must be what it was (C05, C19), keyword look-alikes (NFKC) in every
+hostile mix, C02 prior calls with another start_symbol and a parse aborted by the recursion limit, C13 listings of eval_input trees and
+of modules updated in place (listed last before the next update), C16 FileIO objects kept by the caller and a path spelled through a
+symlinked directory, C20 positions beyond a line's end and multi-line strings with separators.  One earlier
 change (C19-A) stopped being a defect after a later repair of `_create_params` and is kept for the record only.  Sub-agents also reported defects of the *unchanged* tree that their demonstrations had to
 avoid (list target in a comprehension with a walrus -> UnboundLocalError; f-string text equal to a keyword feeding syntax rules and
 is_generator(); comma lost when `def f(*,)` is rebuilt from its dump; a damaged pickle that still unpickles to a wrong tree -- the
